@@ -97,9 +97,40 @@ class Interp:
     # ------------------------------------------------------------------ entry
     def run(self, qual, args=None, kwargs=None, self_obj=None):
         m, fn = self.prog.func(qual)
-        f = Func(qual, m, fn, bound=self_obj)
+        f = Func(qual, m, fn, bound=self_obj, closure=self.closure_for(qual))
         ret = self.call_func(f, list(args or []), dict(kwargs or {}), fn)
         return Result(ret, self._last_returns, self._last_env, self.events, self_obj)
+
+    def closure_for(self, qual):
+        """free variables of a nested function analysed on its own: the parameters of the enclosing functions, as
+        their literal defaults where they have one, else as symbols; nested sibling functions as functions"""
+        parts = qual.split(".")
+        env = {}
+        for i in range(2, len(parts)):
+            q = ".".join(parts[:i])
+            try:
+                m, n = self.prog.lookup(q)
+            except Exception:  # noqa
+                continue
+            if not isinstance(n, ast.FunctionDef):
+                continue
+            a = n.args
+            params = a.posonlyargs + a.args + a.kwonlyargs
+            defaults = [None] * (len(a.posonlyargs + a.args) - len(a.defaults)) + list(a.defaults) + list(a.kw_defaults)
+            for p_, d in zip(params, defaults):
+                if p_.arg in ("self", "cls"):
+                    continue
+                v = None
+                if d is not None:
+                    try:
+                        v = K(ast.literal_eval(d))
+                    except Exception:  # noqa
+                        v = None
+                env[p_.arg] = v if v is not None else Val(sym(p_.arg))
+            for sub in ast.walk(n):
+                if isinstance(sub, ast.FunctionDef) and sub is not n:
+                    env.setdefault(sub.name, Func(q + "." + sub.name, m, sub, closure=env))
+        return env or None
 
     def record(self, kind, name, args, kwargs, node, extra=None):
         ev = Event(kind, name, args, kwargs, node, self.stack[-1].fn if self.stack else "?", self.guards, extra)
@@ -716,13 +747,21 @@ class Interp:
             if isinstance(v, ast.Constant):
                 parts.append(const(v.value))
             else:
-                parts.append(to_term(self.eval(v.value, fr)))
+                parts.append(to_term(self.e_FormattedValue(v, fr)))
         if all(tm.is_const(p) for p in parts):
             return K("".join(str(p.args[0]) for p in parts))
-        return Val(T("str", *parts))
+        r = Val(T("str", *parts))
+        r.fstring = node
+        return r
 
     def e_FormattedValue(self, node, fr):
-        return self.eval(node.value, fr)
+        v = self.eval(node.value, fr)
+        if node.format_spec is None and node.conversion == -1:
+            if isinstance(v, Val):
+                return v
+            return Val(to_term(v))
+        spec = to_term(self.eval(node.format_spec, fr)) if node.format_spec is not None else const("")
+        return Val(T("fmt", to_term(v), spec, const(node.conversion)))
 
     def e_UnaryOp(self, node, fr):
         v = self.eval(node.operand, fr)
@@ -755,16 +794,19 @@ class Interp:
                     return v
             return vals[-1]
         out = None
-        for v, k in zip(vals, known):
+        n = len(vals)
+        for i, (v, k) in enumerate(zip(vals, known)):
+            last = i == n - 1
             if k is not None:
-                if opn == "and" and k is True:
+                decisive = (opn == "and" and k is False) or (opn == "or" and k is True)
+                if not decisive and not last:
                     continue
-                if opn == "or" and k is False:
-                    continue
-                if opn == "and" and k is False:
-                    return K(False)
-                if opn == "or" and k is True:
+                if out is None:
                     return v
+                out = mk(opn, out, to_term(v))
+                if decisive:
+                    break
+                continue
             t = to_term(v)
             out = t if out is None else mk(opn, out, t)
         return Val(out if out is not None else const(opn == "and"))
